@@ -23,7 +23,7 @@ ASSUMPTIONS = ["channel_count * frame_size <= 32768 (delta offsets are signed 16
 HAS_SEARCH_TIER = True
 
 FS = {"d4": 20, "d5": 24}
-TIMEOUT_S = 6
+TIMEOUT_S = 20
 
 
 def gen_tables():
@@ -363,7 +363,7 @@ def score_case(rng, kind="score", lay=None, cc=None, nframes=None, strategies=No
         w = fix_wrapper(rand_wrapper(rng))
         data = file_bytes(spec, recs, w)
         lines.append(f"score parse {hx(data)}"); expect.append(exp)
-        encs.append(dict(strategy=st, wrapped=w is not None, recs=recs_txt(recs) if len(recs_txt(recs)) < 3000 else "(long)"))
+        encs.append(dict(strategy=st, wrapped=w is not None, inner_off=(24 + 4 * len(w[4])) if w is not None else 0, recs=recs_txt(recs) if len(recs_txt(recs)) < 3000 else "(long)"))
         if with_ser and len(lines) <= 2:
             lines.append(ser_line(spec, recs, w)); expect.append(None)
             lines.append(f"score fold {lay} {cc} {recs_txt(recs)}"); expect.append(exp)
@@ -488,6 +488,14 @@ def malformed_cases(rng, n):
             for _ in range(3):
                 data[rng.randrange(len(data))] = rng.randrange(256)
             what = "flip3"
+        # a huge declared channel count with a valid frame size is legitimate slow work (32767 sprites per frame), not a hang:
+        # keep it rare so that the quick tier stays quick
+        io = c.spec["encodings"][0]["inner_off"]
+        if len(data) >= io + 18:
+            ccv = struct.unpack_from(">h", data, io + 16)[0]
+            if ccv > 2000 and rng.random() < 0.97:
+                struct.pack_into(">h", data, io + 16, rng.choice([0, 1, 2, 3, 1639]))
+                what += "+cc-clamped"
         h = hx(bytes(data))
         lines = [f"score parse {h}", f"score parsedata {h}", f"score stepsobs {h}"]
         if k % 4 == 0:
